@@ -494,7 +494,8 @@ pub fn run(args: &Args) -> i32 {
     });
     accepted.extend(acc_c.into_inner().unwrap());
     check.note("accepted_pool", json!(accepted.len()));
-    check.note("exhaustive", json!({"mesh_params_0_8_pow4_x3": true, "history_pairs_0_8": true, "prng_sequences": false, "heartbeat_half": false}));
+    check.note("exhaustive", json!(false));
+    check.note("exhaustive_detail", json!({"mesh_params_0_8_pow4_x3": true, "history_pairs_0_8": true, "prng_sequences": false, "heartbeat_half": false}));
 
     // heartbeat half: PRNG sample of the accepted pool
     let nhb = args.tier.pick(6_000u64, 1_500_000);
